@@ -1,4 +1,5 @@
 import SimilarVerif.Model.Iter
+import SimilarVerif.Model.Text
 /-! Line-protocol driver: one request per line on stdin, one canonical response line on stdout.
 Imports the model only (core Lean), so it links natively. -/
 open SimilarVerif
@@ -76,6 +77,49 @@ def showSlice (x : CTag × Bool × Nat × Nat) : String :=
   if x.2.2.1 == x.2.2.2 then s!"{t}.e" else
   s!"{t}.{if x.2.1 then "n" else "o"}.{x.2.2.1}.{x.2.2.2}"
 
+def hexVal (c : Char) : Option Nat :=
+  if '0' ≤ c && c ≤ '9' then some (c.toNat - '0'.toNat)
+  else if 'a' ≤ c && c ≤ 'f' then some (c.toNat - 'a'.toNat + 10) else none
+
+def parseHex (s : String) : Option Bytes :=
+  let rec go : List Char → Option Bytes
+    | [] => some []
+    | [_] => none
+    | a :: b :: rest => do
+      let x ← hexVal a; let y ← hexVal b; let r ← go rest
+      pure ((x * 16 + y).toUInt8 :: r)
+  if s == "-" then some [] else go s.toList
+
+def bytesToChars (b : Bytes) : Option (List Char) :=
+  (String.fromUTF8? (ByteArray.mk b.toArray)).map (·.toList)
+
+def showRanges (l : List (Nat × Nat)) : String := ",".intercalate (l.map fun (a, b) => s!"{a}-{b}")
+
+/-- `tok <kind> <mode> | <hex> [| seg lens]` -/
+def handleTok (kind mode : String) (b : Bytes) (seg : Option (List Nat)) : String :=
+  match kind, seg with
+  | "uwords", some lens | "graphemes", some lens =>
+    if lens.all (0 < ·) && lens.sum == b.length then "ok K=" ++ showRanges (rangesOfLens 0 lens) else "contract"
+  | _, _ =>
+  if mode == "str" then
+    match bytesToChars b with
+    | none => "bad-op"
+    | some cs =>
+      (match kind with
+       | "lines" => "ok K=" ++ showRanges (tokenizeLinesS cs)
+       | "lnl" => "ok K=" ++ showRanges (tokenizeLinesAndNewlinesS cs)
+       | "words" => "ok K=" ++ showRanges (tokenizeWordsS cs)
+       | "chars" => "ok K=" ++ showRanges (tokenizeCharsS cs)
+       | _ => "bad-op")
+  else
+    match kind with
+    | "lines" => "ok K=" ++ showRanges (tokenizeLinesB b)
+    | "lnl" => "ok K=" ++ showRanges (tokenizeLinesAndNewlinesB b)
+    | "words" => "ok K=" ++ showRanges (tokenizeWordsB b)
+    | "chars" => "ok K=" ++ showRanges (tokenizeCharsB b)
+    | "decode" => "ok K=" ++ ",".intercalate ((charIndicesB b.length 0 b).map fun (s, e, c) => s!"{s}-{e}:{c.toNat}")
+    | _ => "bad-op"
+
 def handle (line : String) : String :=
   let parts := (line.splitOn "|").map (·.trimAscii.toString)
   match parts with
@@ -110,8 +154,24 @@ def handle (line : String) : String :=
            | none => "bad-op")
         | _, _, _, _ => "bad-op")
      | _ => "bad-op")
+  | [hd, body, seg] =>
+    (match words hd with
+     | ["tok", kind, mode] =>
+       (match parseHex body, parseNats seg with
+        | some b, some lens => handleTok kind mode b (some lens)
+        | _, _ => "bad-op")
+     | _ => "bad-op")
   | [hd, body] =>
     (match words hd with
+     | ["tok", kind, mode] =>
+       (match parseHex body with
+        | some b => handleTok kind mode b none
+        | none => "bad-op")
+     | ["ws", lo, hi] =>
+       (match lo.toNat?, hi.toNat? with
+        | some lo, some hi =>
+          "ok W=" ++ String.ofList ((List.range (hi - lo)).map fun i => if isWhitespace (Char.ofNat (lo + i)) then '1' else '0')
+        | _, _ => "bad-op")
      | ["group", n] =>
        (match n.toNat?, parseOps body with
         | some n, some ops => "ok G=" ++ ";".intercalate ((groupDiffOps ops n).map showOps)
